@@ -38,6 +38,9 @@ use crate::{
 
 use futures::{future::BoxFuture, stream::FuturesUnordered, AsyncRead, AsyncWrite, StreamExt};
 use multiaddr::{Multiaddr, Protocol};
+#[cfg(litep2p_verif)]
+use crate::verif::net::TcpStream;
+#[cfg(not(litep2p_verif))]
 use tokio::net::TcpStream;
 use tokio_tungstenite::{MaybeTlsStream, WebSocketStream};
 use tokio_util::compat::FuturesAsyncReadCompatExt;
